@@ -129,6 +129,22 @@ def hdlc_structured(cfgname, h, n):
     return path
 
 
+def hdlc_overflow_path(cfgname, k):
+    """an open frame that does not end at its announced length (2047 | 16 | 2046), up to the length limit: 7E + valid header + concrete filler so
+    that the frame holds 2047 - k//2 octets, then k free octets (any value: flags, escapes, data), two flags, a small valid frame"""
+    def path(eng, ctx):
+        from spec import ref
+        hdr = [[0xA7, 0xFF], [0xA0, 0x10], [0xA7, 0xFE]][eng.pick(3)] + [0x03, 0x21, 0x13]      # announces 2047 | 16 | 2046 octets
+        head = hdr + [ref.fcs16(hdr) & 0xFF, ref.fcs16(hdr) >> 8]
+        fill = [0x55] * (2047 - (k // 2) - len(head))
+        fr = [sym_octet(f"x{i}") for i in range(k)]
+        clean = ref.build_frame([0x03], [0x21], 0x13, [0xE6, 0xE7, 0x00])
+        stream = SBytes([0x7E] + head + fill + fr + [0x7E, 0x7E] + clean + [0x7E])
+        a = 1 + len(head) + len(fill)
+        run_reader(ctx, cfgname, stream, [(), (a,), (a + k,), (a + 1, a + k + 1)], f"hdlc {cfgname}: open frame at the length limit, {k} free octets")
+    return path
+
+
 P1_DATA = list(b"1-0:1.8.0(000123*kWh)\r\n")
 
 
@@ -212,6 +228,10 @@ def scenarios(tier):
                             domains=("hdlc",), frontier=6, assumptions=A, replay_cap=40))
         out.append(Scenario(f"hdlc reader {name}: 7E + 7 header-like + {3 if q else 4} free + 7E", hdlc_structured(name, 7, 3 if q else 4), bounds={"free_octets": 3 if q else 4, "splittings": "every single cut"},
                             domains=("hdlc",), frontier=6, assumptions=A, replay_cap=40))
+        ko = 3 if q else 5
+        out.append(Scenario(f"hdlc reader {name}: open frame reaching the 2047-octet limit, {ko} free octets around it", hdlc_overflow_path(name, ko),
+                            bounds={"frame": "valid header announcing 2047 | 16 | 2046 octets, concrete filler", "free_octets": f"{ko} (frame octets {2047 - ko // 2 + 1}..{2047 - ko // 2 + ko}; any value, flags and escapes included)", "then": "two flags and a small valid frame",
+                                    "splittings": "one call, cut before/after the free octets"}, domains=("hdlc",), frontier=4, workers=4, assumptions=A, replay_cap=20))
     k = 3 if q else 4
     out.append(Scenario(f"p1 reader + readout accessors: six noise families, {k} free octets", p1_reader_path(k, False),
                         bounds={"families": "free | '/'+free+LF | ident+free+LF | ident+data+'!'+free+LF | '!' inside ident line | free in data and after '!'", "free_octets": k, "splittings": "every single cut"},
